@@ -1192,6 +1192,30 @@ class Gen:
         actuals = []
         for frm in hlp.formals:
             actuals.append(self.actual(frm, used))
+        # "index aliasing" class: an integer variable is passed to a written
+        # integer dummy while another actual is an array element whose
+        # subscript reads that same variable (legal Fortran: the element is
+        # selected at the call)
+        ints = [i for i, f in enumerate(hlp.formals)
+                if f.typ == "int" and not f.dims and f.role == "inout"]
+        reals = [i for i, f in enumerate(hlp.formals)
+                 if f.typ == "real" and not f.dims]
+        arrs = [a for a in self.arrays("real", writable=True, rank=1)]
+        ivars = [v for v in self.scalars("int", writable=True)]
+        if ints and reals and arrs and ivars and \
+                self.int(1, 100) <= self.prof.get("index_alias_calls", 0):
+            ivar = self.pick(ivars)
+            arr = self.pick(arrs)
+            lb, ub = arr.dims[0]
+            used = {ivar.name, arr.name}
+            actuals = [None] * len(hlp.formals)
+            actuals[ints[0]] = ivar.name
+            actuals[reals[0]] = \
+                f"{arr.name}(min(max({ivar.name}, {lit(lb)}), {lit(ub)}))"
+            for pos, frm in enumerate(hlp.formals):
+                if actuals[pos] is None:
+                    actuals[pos] = self.actual(frm, used)
+            self.features.add("index_alias_call")
         if self.flip(1, 4) and len(actuals) >= 1:
             # keyword arguments for a suffix of the list
             cut = self.int(0, len(actuals) - 1)
